@@ -104,6 +104,17 @@ fn gen_cfg(rng: &mut Rng, explicit_prefix: Option<&str>) -> Value {
                 {"src": "trim"}, {"src": "concat", "dst": "cc"}
             ]);
         }
+        3 => {
+            // the same src list as the tracer-like configuration, other destination names
+            if let Some(ms) = cfg["csiMethods"].as_array_mut() {
+                for m in ms.iter_mut() {
+                    if m["src"] == "trim" || m["src"] == "plusOperator" || m["src"] == "slice" {
+                        let newdst = format!("{}Renamed", m["src"].as_str().unwrap_or("x"));
+                        m["dst"] = Value::from(newdst);
+                    }
+                }
+            }
+        }
         2 => {
             // method allowed without callee
             cfg["csiMethods"].as_array_mut().unwrap().push(json!({"src": "fn0", "allowedWithoutCallee": true}));
